@@ -6,6 +6,19 @@
 # evaluate calls runs; then (a) the old map is re-evaluated, (b) B is decoded and mapped again and evaluated - all three
 # evaluations must agree.  A monitor walks the module-level register objects and decode-mode switches after every history
 # step and names the first instruction whose semantics wrote a flag of a global object (root cause key).
+# Histories contain, besides other instructions: (i) analysis episodes that are not ISA specific - maps built through the mapper
+# API (and from the ISA's own store/store/load instructions where harness/c02.py has an encoder) while conf.Cas.noaliasing is
+# temporarily False (put back right after, as sa.lbackward does around makemap), kept, and evaluated later (state >> m,
+# m.use(...), m(expr)); after every history step every process-wide setting (all traits of every section of amoco.config.conf,
+# regtype.cur, the type flags of the module-level registers) must equal its value from before the history - a changed
+# setting is a finding of its own (key `<isa>|global-config-change`); blocks that store through two pointers and load through
+# the first are among the blocks compared, on a state in which all pointer-sized registers coincide.  (ii) systematic
+# 'same setup function' histories (hook_job): the live specifications of every ISA / mode are grouped by their hook function;
+# for every group a family of instructions (several specifications of the group, several fills of the fields of each) is
+# decoded, executed and evaluated in two (thorough: three) pristine forked children in different orders, twice, and the
+# instruction objects / maps of the first pass are executed / evaluated again at the end; every signature of a family member
+# (concrete results of its map) must be the same in every order, pass and child - whatever the hook keeps at module level
+# (tables, shared operand lists) is exercised by odd and even numbers of decodes of its siblings.
 import json
 import os
 import random
@@ -20,9 +33,16 @@ import exptree as X
 
 LEVEL = "proof"
 MAXMID = 3          # rebuilds of the block in the middle of a history (after failed decodes), per case
+SAME_HOOK = True        # systematic same-setup-function histories (hook_job)
+ALIAS_EPISODES = True   # aliasing-aware analysis episodes in the histories + store/store/load blocks on coinciding pointers
+CONFIG_MONITOR = True   # process-wide settings compared with their snapshot after every history step
+FAMILY = {"quick": 6, "thorough": 16}        # instructions per hook group
+CHUNK = 200                                  # family members per forked child (hook_job)
+GROUP_CPU = 20                               # CPU seconds per hook group before the child gives up
+MAX_HOOK_FINDINGS = 4                        # reported hook-group findings per ISA (the rest is counted)
 
 
-class Timeout(Exception):
+class Timeout(BaseException):
     pass
 
 
@@ -45,6 +65,121 @@ def global_flags(cpu, regs):
             if isinstance(v, (int, str, bool, type(None))):
                 out["internals." + str(k)] = v
     return out
+
+
+def registers(cpu):
+    """the registers results are read from: c02.cpu_registers plus the base register of every slice the module lists (the
+    Z80 modules list a, f, i, r ... as slices of af, ir ...) and every other module-level register object"""
+    from amoco.cas.expressions import exp
+    out = list(c02.cpu_registers(cpu))
+    seen = {id(r) for r in out}
+    refs = {getattr(r, "ref", None) for r in out}
+    cands = [r.x for r in (getattr(cpu, "registers", None) or []) if getattr(r, "_is_slc", False)]
+    cands += [(v.x if v._is_slc else v) for v in vars(cpu).values() if isinstance(v, exp) and (v._is_reg or v._is_slc)]
+    for b in cands:
+        if getattr(b, "_is_reg", False) and not b._is_slc and not b._is_ext and b.size and id(b) not in seen and b.ref not in refs:
+            seen.add(id(b))
+            refs.add(b.ref)
+            out.append(b)
+    return out
+
+
+def settings_reader(conf, cpu):
+    """a function giving the current value of every process-wide setting: all traits of every section of amoco.config.conf,
+    regtype.cur and the type flags (pc / flags / stack / other) of the module-level registers"""
+    from amoco.cas.expressions import exp, regtype
+    pairs = []
+    for sec in sorted(x for x in dir(conf) if not x.startswith("_")):
+        o = getattr(conf, sec, None)
+        if hasattr(o, "trait_names"):
+            for t in sorted(o.trait_names()):
+                if t not in ("config", "parent"):
+                    pairs.append(("conf.%s.%s" % (sec, t), o, t))
+    regobjs = [(k, v) for k, v in vars(cpu).items() if isinstance(v, exp) and v._is_reg and not v._is_slc]
+
+    def read():
+        out = {}
+        for name, o, t in pairs:
+            v = getattr(o, t, None)
+            out[name] = v if isinstance(v, (int, str, bool, float, type(None))) else repr(v)
+        out["regtype.cur"] = regtype.cur
+        for k, v in regobjs:
+            out["etype." + k] = v.etype
+        return out
+
+    def restore(snap):
+        for name, o, t in pairs:
+            if name in snap and getattr(o, t, None) != snap[name] and isinstance(snap[name], (int, str, bool, float)):
+                setattr(o, t, snap[name])
+    read.restore = restore
+    return read
+
+
+def settings_diff(c0, c1):
+    return ["%s: %r -> %r" % (k, c0.get(k), c1.get(k)) for k in sorted(c1) if c1.get(k) != c0.get(k)]
+
+
+def gen_states(rng, regs, n):
+    """n concrete states: registers hold pointers into their own part of the memory window, boundary values or random bits"""
+    states = []
+    for _ in range(n):
+        regvals = []
+        for ri, r in enumerate(regs):
+            c = rng.random()
+            v = (c02.MEMBASE + 0x100 * (ri % 60) + 0x40 + 8 * rng.randrange(0, 8)) if (c < 0.5 and r.size >= 20) else \
+                (0 if c < 0.6 else X.mask(r.size) if c < 0.7 else (1 << (r.size - 1)) if c < 0.8 else rng.getrandbits(r.size))
+            regvals.append((r, v & X.mask(r.size)))
+        states.append((regvals, bytes(rng.getrandbits(8) for _ in range(c02.MEMLEN))))
+    return states
+
+
+def coincide_state(rng, regs):
+    """a state in which every register wide enough to hold an address holds the same address (whatever registers a block
+    uses as pointers, they coincide); the other registers hold random bits"""
+    P = c02.MEMBASE + 0x2840
+    regvals = [(r, (P if r.size >= 16 else rng.getrandbits(r.size)) & X.mask(r.size)) for r in regs]
+    return (regvals, bytes(rng.getrandbits(8) for _ in range(c02.MEMLEN)))
+
+
+def pointer_regs(rng, regs):
+    """(p, q, d, w): two different registers of the greatest widths used as pointers, a destination register and the access
+    width - for maps made through the mapper API, the way instruction semantics make them"""
+    big = sorted(regs, key=lambda r: -r.size)
+    if len(big) < 2 or big[1].size < 8:
+        return None
+    top = [r for r in big if r.size == big[0].size]
+    if len(top) >= 2:
+        p, q = rng.sample(top, 2)
+    else:
+        p, q = big[0], rng.choice([r for r in big[1:] if r.size == big[1].size])
+    rest = [r for r in regs if r is not p and r is not q and r.size >= 8]
+    d = rng.choice(rest) if rest else p
+    return p, q, d, min(32, min(p.size, q.size) // 8 * 8)
+
+
+def api_block(E, mapper, p, q, d, w, c1, c2, disp=0):
+    """store through p, store through q, load through p into d - under the current configuration"""
+    m = mapper()
+    m[E.mem(p, w, disp=disp)] = E.cst(c1 & X.mask(w), w)
+    m[E.mem(q, w, disp=disp)] = E.cst(c2 & X.mask(w), w)
+    x = m(E.mem(p, w, disp=disp))
+    m[d] = x.zeroextend(d.size) if d.size > w else x[0:d.size] if d.size < w else x
+    return m
+
+
+def triple_bytes(name, k, rng):
+    """the ISA's own store / store / load through two pointer registers (encoders of harness/c02.py): [bytes] or None"""
+    ent = c02.COPY_ISAS.get(name)
+    if ent is None or ent[0] != k:
+        return None
+    _, enc, ra, rb, data, narrow, W, widths = ent
+    w = rng.choice([x for x in widths if x >= 32])
+    d1, d2, d3 = rng.sample(list(data), 3)
+    disp = rng.choice([0, 4, 8])
+    out = [enc("st", w, False, d1, ra, disp), enc("st", w, False, d2, rb, disp), enc("ld", w, False, d3, ra, disp)]
+    if name.startswith("mips"):
+        out.append(enc("ld", 32, False, 12, ra, 48))       # (loads are delayed by one instruction: commits the load above)
+    return None if any(b is None for b in out) else out
 
 
 def probes(cpu, E, mapper, regs):
@@ -157,11 +292,13 @@ def case(args):
     signal.setitimer(signal.ITIMER_PROF, 60)
     try:
         rng = random.Random(seed)
+        rng2 = random.Random(seed * 7919 + 13)        # choices of the aliasing episodes (the older draws keep their sequence)
         specs, _ = c04.mode_specs(dis, k)
         e, ml = dis.endian(), dis.maxlen
-        regs = c02.cpu_registers(cpu)
+        regs = registers(cpu)
         if not regs:
             return res
+        read_settings = settings_reader(conf, cpu)
         with isa.ModeCtx(dis, k):
             pick = lambda n: [c04.spec_bytes(rng, rng.choice(specs), e, ml) + bytes(rng.getrandbits(8) for _ in range(ml)) for _ in range(n)]
             bblobs = pick(rng.randrange(2, 7))
@@ -184,21 +321,32 @@ def case(args):
                 hblobs.insert(rng.randrange(0, len(hblobs) + 1), g)
             if rng.random() < 0.5:
                 hblobs += undecodable(rng, specs, pf, e, ml, 1)
-            states = []
-            for _ in range(2):
-                regvals = []
-                for ri, r in enumerate(regs):
-                    c = rng.random()
-                    v = (c02.MEMBASE + 0x100 * (ri % 60) + 0x40 + 8 * rng.randrange(0, 8)) if (c < 0.5 and r.size >= 20) else \
-                        (0 if c < 0.6 else X.mask(r.size) if c < 0.7 else (1 << (r.size - 1)) if c < 0.8 else rng.getrandbits(r.size))
-                    regvals.append((r, v & X.mask(r.size)))
-                states.append((regvals, bytes(rng.getrandbits(8) for _ in range(c02.MEMLEN))))
+            states = gen_states(rng, regs, 2)
+            # blocks that store through two pointers and load through the first: the ISA's own instructions in front of the
+            # block (where there is an encoder) and a map made through the mapper API; both also evaluated on coinciding pointers
+            cstate = coincide_state(rng2, regs)
+            triple = triple_bytes(name, k, rng2) if ALIAS_EPISODES else None
+            if triple and rng2.random() < 0.4:
+                bblobs = triple + bblobs
+                states = states + [cstate]
+                res["triple_block"] = True
+            api = pointer_regs(rng2, regs) if ALIAS_EPISODES else None
+            apic = (rng2.getrandbits(32) | 1, rng2.getrandbits(32) & ~1)
             g0 = global_flags(cpu, regs)
             p0 = probes(cpu, E, mapper, regs)
             if rng.random() < 0.35:
                 # the aliasing assumption switched off: loads carry the stores they may alias, and replay them when evaluated
                 conf.Cas.noaliasing = False
                 res["noaliasing"] = False
+            c0 = read_settings()                 # the process-wide settings of this case
+            cfg = {"change": None}
+
+            def settings_step(desc):
+                """after a step: every process-wide setting still has its value from before the history"""
+                if CONFIG_MONITOR and cfg["change"] is None:
+                    c1 = read_settings()
+                    if c1 != c0:
+                        cfg["change"] = (desc, settings_diff(c0, c1))
             # ---- B first
             B0 = decode_all(dis, bblobs)
             if not B0:
@@ -210,6 +358,13 @@ def case(args):
             except Exception:
                 return res               # raising semantics are C17's subject
             v0 = evaluate(cpu, E, mapper, m0, states, regs)
+            vapi0 = None
+            if api:
+                try:
+                    vapi0 = evaluate(cpu, E, mapper, api_block(E, mapper, *api, *apic), [states[0], cstate], regs)
+                except Exception:
+                    api = None
+            settings_step("building and evaluating the block itself")
             g1 = global_flags(cpu, regs)
             # ---- history of unrelated work, monitored step by step
             culprit = None
@@ -239,11 +394,68 @@ def case(args):
                         mid["bad"] = (bytes(b).hex(), vm)
 
             H = decode_all(dis, hblobs, on_fail=after_failed_decode)
+            settings_step("decoding the history")
             res["failed_decodes"] = mid["fails"]
             res["mid_rebuilds"] = mid["n"]
+            # ---- an analysis episode of the history: maps built while the aliasing assumption is temporarily switched off (the
+            # setting is put back right after, as sa.lbackward does around makemap), kept, and evaluated later in the history
+            ep = {"maps": [], "first": None, "bad": None, "uses": 0}
+            ep_on = ALIAS_EPISODES and api is not None and rng2.random() < 0.7
+            ep_build = rng2.randrange(0, len(H) // 2 + 1)
+            ep_use = {rng2.randrange(ep_build, len(H) + 1) for _ in range(rng2.choice([1, 2, 3]))}
+            ep_regs = pointer_regs(rng2, regs) if ep_on else None
+            ep_c = (rng2.getrandbits(32) | 1, rng2.getrandbits(32) & ~1, rng2.choice([0, 4, 8]))
+            ep_triple = triple_bytes(name, k, rng2) if ep_on else None
+
+            def episode_build():
+                instrs = decode_all(dis, ep_triple) if ep_triple else []
+                saved = conf.Cas.noaliasing
+                conf.Cas.noaliasing = False
+                try:
+                    ep["maps"].append(api_block(E, mapper, *ep_regs, *ep_c))
+                    if ep_triple and len(instrs) == len(ep_triple):
+                        mt = mapper()
+                        for i in instrs:
+                            i(mt)
+                        ep["maps"].append(mt)
+                except Exception:
+                    pass
+                finally:
+                    conf.Cas.noaliasing = saved
+                settings_step("building maps with conf.Cas.noaliasing temporarily False (restored by the harness)")
+                ep["first"] = episode_eval()
+                settings_step("evaluating the maps built while conf.Cas.noaliasing was temporarily False")
+
+            def episode_eval():
+                """the kept maps evaluated: state >> m, m.use(pointer values), m(expr)"""
+                p, q, d, w = ep_regs
+                out = []
+                for m in ep["maps"]:
+                    out.append(evaluate(cpu, E, mapper, m, [states[0], cstate], regs))
+                    for f in (lambda: m.use((p, E.cst(c02.MEMBASE + 0x40, p.size)), (q, E.cst(c02.MEMBASE + 0x40, q.size)))(d),
+                              lambda: m(E.mem(p, w, disp=ep_c[2])), lambda: m(d)):
+                        try:
+                            v = f()
+                            out.append((v.v & X.mask(v.size), v.size) if v._is_cst else "sym")
+                        except Exception as x:
+                            out.append("raised " + type(x).__name__)
+                ep["uses"] += 1
+                return out
+
+            def episode_step(hi):
+                if not ep_on:
+                    return
+                if hi == ep_build and ep["first"] is None:
+                    episode_build()
+                if hi in ep_use and ep["first"] is not None and ep["bad"] is None:
+                    again = episode_eval()
+                    settings_step("evaluating again the maps built while conf.Cas.noaliasing was temporarily False")
+                    if again != ep["first"]:
+                        ep["bad"] = again
             hm = mapper()
             derived = None
             for hi, i in enumerate(H):
+                episode_step(hi)
                 try:
                     # unrelated work on scratch maps, and work on maps derived from the earlier result (copies, compositions)
                     if hi % 3 == 1:
@@ -261,15 +473,25 @@ def case(args):
                 except Exception:
                     hm = mapper()
                     derived = None
+                settings_step("executing / evaluating %s of the history" % sstr(i)[:60])
                 g = global_flags(cpu, regs)
                 if g != gprev and culprit is None:
                     ch = sorted(kk for kk in g if g.get(kk) != gprev.get(kk))
                     culprit = (str(i.mnemonic), ch[:3])
                 gprev = g
+            episode_step(len(H))
             res["nontrivial"] = len(H) >= 3
+            res["episode_uses"] = ep["uses"]
             # ---- (a) the old map, (b) the map rebuilt after the history
             v0b = evaluate(cpu, E, mapper, m0, states, regs)
             v1 = rebuild()
+            vapi1 = vapi0
+            if api:
+                try:
+                    vapi1 = evaluate(cpu, E, mapper, api_block(E, mapper, *api, *apic), [states[0], cstate], regs)
+                except Exception as x:
+                    vapi1 = [("rebuild raised", type(x).__name__)]
+            settings_step("re-evaluating the old map / rebuilding the block")
             # (c) the instruction objects decoded first, executed once more (their first execution is history too)
             try:
                 m2 = mapper()
@@ -284,7 +506,9 @@ def case(args):
                 ch = sorted(kk for kk in g1 if g1.get(kk) != g0.get(kk))
                 first_self = ("+".join(sorted({str(i.mnemonic) for i in B0}))[:40], ch[:3])
             what = None
-            if v0b != v0:
+            if cfg["change"] is not None:
+                what = "global-config-change"
+            elif v0b != v0:
                 what = "old-map"
             elif mid["bad"] is not None:
                 what = "rebuilt-map-after-failed-decode-of-" + mid["bad"][0]
@@ -293,6 +517,12 @@ def case(args):
                 what = "rebuilt-map"
             elif v2 != v0:
                 what = "re-executed-instructions"
+            elif vapi1 != vapi0:
+                what = "rebuilt-map-of-a-store-store-load-through-two-pointers-(mapper-API)"
+                v0, v1 = vapi0, vapi1
+            elif ep["bad"] is not None:
+                what = "old-map-built-under-temporary-noaliasing=False"
+                v0, v1 = ep["first"], ep["bad"]
             p1 = probes(cpu, E, mapper, regs)
             if what is None and p1 != p0:
                 ch = sorted(kk for kk in p1 if p1.get(kk) != p0.get(kk))
@@ -304,9 +534,14 @@ def case(args):
                     cause = first_self or ("failed decode", [])          # nothing of the history had been executed yet
                 switches = [c for c in cause[1] if c.startswith("internals.")]
                 key = "%s|%s" % (name, switches[0]) if switches else "%s|%s|%s" % (name, cause[0], ",".join(cause[1]) or "no-global-flag-change")
+                msg = "%s: the %s of block [%s] evaluates differently after a history of %d instructions (first global write: %s by %s)" % (
+                    name, what.replace("-", " "), " ; ".join(sstr(i) for i in B0)[:120], len(H), cause[1], cause[0])
+                if what == "global-config-change":
+                    key = "%s|global-config-change" % name
+                    msg = "%s: a process-wide setting was changed by a history step (%s): %s" % (name, cfg["change"][0], "; ".join(cfg["change"][1])[:200])
+                    cause = (cfg["change"][0], cfg["change"][1][:3])
                 res["find"] = {"key": key,
-                               "what": "%s: the %s of block [%s] evaluates differently after a history of %d instructions (first global write: %s by %s)" % (
-                                   name, what.replace("-", " "), " ; ".join(sstr(i) for i in B0)[:120], len(H), cause[1], cause[0]),
+                               "what": msg,
                                "replay": {"isa": name, "mode": k, "seed": seed, "block": [b.hex() for b in bblobs], "history": [b.hex() for b in hblobs],
                                           "symptom": what, "culprit": cause}}
     except Timeout:
